@@ -117,7 +117,7 @@ def frequency_transform(imf, sample_rate, method,
             imf = imf[:, :, None]
 
         # Estimate inst amplitudes with spline interpolation
-        iamp = np.zeros_like(imf)
+        iamp = np.zeros_like(imf, dtype=float)
         for ii in range(imf.shape[1]):
             for jj in range(imf.shape[2]):
                 iamp[:, ii, jj] = utils.interp_envelope(imf[:, ii, jj],
@@ -162,7 +162,7 @@ def frequency_transform(imf, sample_rate, method,
             imf = imf[:, :, None]
 
         # Estimate inst amplitudes with spline interpolation
-        iamp = np.zeros_like(imf)
+        iamp = np.zeros_like(imf, dtype=float)
         for ii in range(imf.shape[1]):
             for jj in range(imf.shape[2]):
                 iamp[:, ii, jj] = utils.interp_envelope(imf[:, ii, jj],
